@@ -129,7 +129,7 @@ func TestCheck(t *testing.T) {
 			sys := pbkvs.New(cfg.Config)
 			sys.Observe = pbkvs.ObserveHistory
 			r := sys.BFS(ss.BFSOptions{Workers: env.Workers, Deadline: time.Now().Add(share), Constraint: cfg.Constraint, MaxDev: cfg.MaxDev,
-				Invariants: []func(*ss.State) (string, string){histInv, cfg.ConsistencyOK}, FailedIsViolation: true, MaxViol: 5})
+				Invariants: []func(*ss.State) (string, string){histInv, cfg.ConsistencyOK}, FailedIsViolation: false /* assertion failures are outside this property's statement: counted in the evidence (error_edges), not judged */, MaxViol: 5})
 			if r.MemoMismatch > 0 {
 				t.Fatalf("transition memo disagrees with the real code: %s", r.MemoFirstMismatch)
 			}
@@ -159,7 +159,7 @@ func TestCheck(t *testing.T) {
 			histMu.Lock()
 			nh := len(histCache)
 			histMu.Unlock()
-			per = append(per, map[string]any{"name": cfg.Name, "config": cfg, "states": r.States, "transitions": r.Transitions, "depth": r.Depth, "states_per_deviation_round": r.DevRounds,
+			per = append(per, map[string]any{"name": cfg.Name, "config": cfg, "states": r.States, "transitions": r.Transitions, "depth": r.Depth, "error_edges": r.ErrorEdges, "states_per_deviation_round": r.DevRounds,
 				"distinct_histories_checked_so_far": nh, "leaf_paths_replayed_live": nConf, "exhaustive": r.Exhaustive, "cap": r.Cap, "wall_s": r.WallS,
 				"memo_hits": r.MemoHits, "memo_misses_executed_on_real_code": r.MemoMisses, "memo_hits_rechecked_on_real_code": r.MemoChecks})
 			for _, v := range r.Violations {
